@@ -43,7 +43,22 @@ pub fn gen_report_ledger(rng: &mut Rng, min_txn: usize, max_txn: usize) -> Optio
     if g.stopped {
         return None;
     }
-    Some((g.ledger, g.outcomes))
+    let mut ledger = g.ledger;
+    let outcomes = g.outcomes;
+    // a third of the ledgers are not sorted by date (legal: book-keeping follows file order,
+    // reports select by date): the same dates are dealt to the transactions in random order.
+    if rng.chance(1, 3) {
+        let mut dates: Vec<NaiveDate> = ledger.txns().map(|(_, t)| t.date).collect();
+        rng.shuffle(&mut dates);
+        let mut k = 0;
+        for e in ledger.entries.iter_mut() {
+            if let Entry::Txn(t) = e {
+                t.date = dates[k];
+                k += 1;
+            }
+        }
+    }
+    Some((ledger, outcomes))
 }
 
 pub fn candidate_dates(dates: &BTreeSet<NaiveDate>) -> Vec<Option<NaiveDate>> {
